@@ -40,6 +40,8 @@ SNIPPETS = [
     ("@memoize\ndef f(x):\n    return x\n", {('decorator', 'decorator')}),
     ("def f(x):\n    y = torch.cat((x, x), 1)\n    torch.add(x, 1, out=x)\n    return y\n", {('inplace', 'unknown')}),
     ("def f(x, hs):\n    hs[0] = None\n    return x\n", {('inplace', 'param')}),
+    ("class M:\n    def forward(self, x):\n        if self.h0.dtype != x.dtype:\n            self.to(x.dtype)\n        return x\n", {('self_write', 'attr')}),
+    ("class M:\n    def forward(self, x):\n        setattr(self, 'k', 1)\n        return x\n", {('self_write', 'attr')}),
 ]
 
 def analyse_snippet(src):
@@ -140,7 +142,7 @@ def call(m, kind, args, dt, grad):
         return ('raised', type(e).__name__)
 
 def call_(m, kind, args, dt, grad):
-    m2 = copy.deepcopy(m).to(dt)      # nn.Module.to converts in place: never convert the shared instance
+    m2 = m                            # the shared instance itself: a call must not change it
     if grad:
         for t in flatten(args): t.requires_grad_(True)
         out = m2(args)
@@ -164,11 +166,16 @@ def oracle_run(cfg):
                     mods.append((kind, p, mk, mk(), torch.get_default_dtype()))
                 else:
                     kind, p, mk, m, d0 = mods[int(r.integers(len(mods)))]
-                    dt = torch.float64 if r.integers(2) else torch.float32
+                    # mostly the module's own precision, sometimes the other one (the unchanged code then raises)
+                    dt = d0 if r.integers(4) else (torch.float32 if d0 == torch.float64 else torch.float64)
                     args = make_args(kind, m, r, dt, p)
                     before = clone_args(args)
                     grad = bool(r.integers(2))
+                    state0 = {k: v.clone() for k, v in m.state_dict().items()}
                     out = call(m, kind, args, dt, grad)
+                    state1 = m.state_dict()
+                    if set(state0) != set(state1) or any(state0[k].dtype != state1[k].dtype or not torch.equal(state0[k], state1[k]) for k in state0):
+                        return dict(detail='%s(%s): the call (input dtype %s) changed the module\'s parameters/buffers' % (kind, p, dt))
                     if not same(args, before):
                         return dict(detail='%s(%s): an argument tensor was modified by the call' % (kind, p))
                     if isinstance(args, tuple) and (len(args[1]) != len(before[1])):
@@ -177,7 +184,7 @@ def oracle_run(cfg):
             # replay every call on a fresh module in a clean state, other grad mode
             for (kind, p, mk, d0, dt, args, out, grad) in log:
                 torch.set_default_dtype(d0)
-                ref = call(mk(), kind, clone_args(args), dt, not grad)
+                ref = call(mk(), kind, clone_args(args), dt, not grad)   # fresh instance built under the same default dtype
                 if not same(out, ref):
                     return dict(detail='%s(%s) dtype=%s: result during the history differs from a fresh module called once (grad %s vs %s)' % (kind, p, dt, grad, not grad))
             return None
